@@ -104,6 +104,8 @@ func c04(p *core.Prog, r *core.Report) {
 	c04IDs(p, r, locks)
 	c04Goroutines(p, r)
 	c03LockOrder(p, r, "C04-R6")
+	r.Rule("C04-R7", "E6 census/paths", 3, "pooled per-call objects are reset when taken from the pool")
+	c04Pools(p, r)
 }
 
 // writtenOnceBeforeGo: the field has a single non-constructor store, under the
@@ -580,4 +582,121 @@ func c04Goroutines(p *core.Prog, r *core.Report) {
 				"caller is synchronously reachable from readFrames (per-exchange order = arrival order)", "peer frames are delivered from outside the single reader goroutine: per-call frame order is no longer the arrival order")
 		}
 	}
+}
+
+// pooledStateReviewed: fields of pooled structs that are not reset when the
+// object is taken from the pool, with the reason this is harmless.
+var pooledStateReviewed = map[string]string{
+	"Frame.Payload":           "assigned once by NewFrame; only CheckedFramePoolForTest.Release clears it, and that pool never hands the frame out again",
+	"Frame.buffer":            "as Frame.Payload",
+	"Frame.headerBuffer":      "as Frame.Payload",
+	"Frame.Header":            "every use overwrites the header (ReadBody parses it from the wire, Frame.write stamps it) before anything reads it",
+	"relayTimer.active":       "set by Start before the timer is used; Get only hands out released (inactive) timers (verified by relayTimer.verifyNotReleased / pool verification)",
+	"relayTimer.stopped":      "assigned by Start",
+	"relayTimer.released":     "cleared by relayTimerPool.Get",
+	"relayTimer.items":        "assigned by Start",
+	"relayTimer.id":           "assigned by Start",
+	"relayTimer.isOriginator": "assigned by Start",
+}
+
+// c04Pools: an object taken from a sync.Pool must not carry state of the call
+// that used it before: every field of the pooled struct that some function
+// other than the taking one assigns (its per-use state) is assigned again by
+// the function that takes it from the pool, on every path before it returns
+// (or the whole struct is overwritten), unless reviewed.
+func c04Pools(p *core.Prog, r *core.Report) {
+	n := 0
+	for _, f := range p.SrcFuncs {
+		if !strings.HasPrefix(pkgOf(f), core.Root) || strings.Contains(pkgOf(f), "/examples") || strings.Contains(pkgOf(f), "/benchmark") || strings.Contains(pkgOf(f), "thrift-gen") {
+			continue
+		}
+		f := f
+		core.EachInstr(f, func(i ssa.Instruction) {
+			ta, ok := i.(*ssa.TypeAssert)
+			if !ok || ta.CommaOk {
+				return
+			}
+			if callResult(ta.X, "sync.Pool.Get") == nil {
+				return
+			}
+			ptr, ok := ta.AssertedType.(*types.Pointer)
+			if !ok {
+				return
+			}
+			named, ok := ptr.Elem().(*types.Named)
+			if !ok || named.Obj().Pkg() == nil || !strings.HasPrefix(named.Obj().Pkg().Path(), core.Root) {
+				return
+			}
+			st, ok := named.Underlying().(*types.Struct)
+			if !ok {
+				return
+			}
+			n++
+			// whole-struct overwrite?
+			whole := false
+			for _, ref := range *ta.Referrers() {
+				if s2, isSt := ref.(*ssa.Store); isSt && s2.Addr == ssa.Value(ta) {
+					whole = true
+				}
+			}
+			for k := 0; k < st.NumFields(); k++ {
+				fld := st.Field(k)
+				// is the field assigned anywhere else (per-use state)?
+				stateful := false
+				for _, g := range p.SrcFuncs {
+					if isPoolNew(g) {
+						continue
+					}
+					core.EachInstr(g, func(j ssa.Instruction) {
+						if s2, isSt := j.(*ssa.Store); isSt && core.AddrField(s2.Addr) == fld {
+							if fa := s2.Addr.(*ssa.FieldAddr); !isFreshAllocValue(fa.X) {
+								stateful = true
+							}
+						}
+					})
+				}
+				if !stateful {
+					continue
+				}
+				key := named.Obj().Name() + "." + fld.Name()
+				construct := "pooled " + key + " reset on Get"
+				if whole {
+					r.Ok("C04-R7", fname(f), construct, p.Pos(ta.Pos()), "the whole struct is overwritten after Get")
+					continue
+				}
+				// a store to x.fld on every path from the Get to a return
+				isReset := func(j ssa.Instruction) bool {
+					s2, isSt := j.(*ssa.Store)
+					if !isSt || core.AddrField(s2.Addr) != fld {
+						return false
+					}
+					return s2.Addr.(*ssa.FieldAddr).X == ssa.Value(ta)
+				}
+				res := core.ReachAvoiding(f, ta, core.IsReturn, isReset, nil)
+				if !res.Found {
+					r.Ok("C04-R7", fname(f), construct, p.Pos(ta.Pos()), "assigned on every path between Get and return")
+				} else if why, ok := pooledStateReviewed[key]; ok {
+					r.Ok("C04-R7", fname(f), construct, p.Pos(ta.Pos()), "reviewed: "+why)
+				} else {
+					r.Fail("C04-R7", fname(f), construct, p.Pos(ta.Pos()), "the object keeps the value "+key+" had when the previous user released it: state of one call leaks into an unrelated later call")
+				}
+			}
+		})
+	}
+	if n < 3 {
+		r.Errorf("pool census found %d typed sync.Pool.Get sites (expected at least 3)", n)
+	}
+}
+
+func isPoolNew(g *ssa.Function) bool {
+	// closures assigned to sync.Pool.New build fresh objects
+	return g.Parent() == nil && strings.HasPrefix(g.Name(), "init$") || (g.Parent() != nil && strings.HasPrefix(g.Parent().Name(), "init"))
+}
+
+func isFreshAllocValue(v ssa.Value) bool {
+	switch x := v.(type) {
+	case *ssa.Alloc:
+		return x.Heap || true
+	}
+	return false
 }
